@@ -74,7 +74,8 @@ pub fn parse_with_debug(t: &str, dbg: Option<bool>) -> Parsed {
 
 pub fn format(tpl: &Template, x: &str) -> Out {
     match guarded(&|| format!("format {:?} on {x:?}", tpl.template_string()), || tpl.format(x)) {
-        Ok(Ok(s)) => Out::Ok(s),
+        // a String that is not valid UTF-8 can only come from unchecked byte manipulation: it is a crash in waiting
+        Ok(Ok(s)) => if std::str::from_utf8(s.as_bytes()).is_ok() { Out::Ok(s) } else { Out::Panic },
         Ok(Err(_)) => Out::Err,
         Err(()) => Out::Panic,
     }
